@@ -101,7 +101,7 @@ func gen(g *mon.Gen) {
 	for v1 := range variants {
 		g.Emit(&Case{Kind: "pairs", Framing: v1 % 2, FC: []uint8{3, 4, 23}[v1%3], Start: []int{0, 100, 65530}[v1%3], Regs: 6, Seed: rng.Int63(), V1: v1})
 	}
-	for i := 0; i < g.Pick(3000, 2000000); i++ {
+	for i := 0; i < g.Pick(12000, 2000000); i++ {
 		n := 1 + rng.Intn(12)
 		regs := 1 + rng.Intn(10)
 		if rng.Intn(4) == 0 {
@@ -119,7 +119,7 @@ func gen(g *mon.Gen) {
 		regs := []int{4, 20, 125}[i%3]
 		g.Emit(&Case{Kind: "concurrent", Framing: i % 2, FC: []uint8{3, 4, 23}[i%3], Start: []int{0, 1000, 65536 - regs}[i%3], Regs: regs, Seed: rng.Int63()})
 	}
-	for i := 0; i < g.Pick(2000, 800000); i++ {
+	for i := 0; i < g.Pick(8000, 800000); i++ {
 		regs := 2 + rng.Intn(20)
 		g.Emit(&Case{Kind: "extract", Framing: rng.Intn(2), FC: []uint8{3, 4}[rng.Intn(2)], Start: []int{0, 40, 65536 - regs}[rng.Intn(3)], Regs: regs, Seed: rng.Int63()})
 	}
